@@ -377,7 +377,7 @@ class OpGen:
         return op
 
 
-def sweep_ops(env_real: dict, studies: list[str], trials: list[str], light: bool = False) -> list[dict]:
+def sweep_ops(env_real: dict, studies: list[str], trials: list[str], light: bool = False, medium: bool = False) -> list[dict]:
     """All getters over all bound handles (the 'complete readable state')."""
     from .ops import STATE_FILTERS
 
@@ -400,11 +400,13 @@ def sweep_ops(env_real: dict, studies: list[str], trials: list[str], light: bool
             "get_best_trial",
         ):
             out.append({"op": k, "study": sh})
-        for f in STATE_FILTERS:
-            for dc in (True, False):
+        for i, f in enumerate(STATE_FILTERS):
+            if medium and i in (2, 4, 5):
+                continue
+            for dc in ((True, False) if not medium else ((i % 2 == 0),)):
                 out.append({"op": "get_all_trials", "study": sh, "states": None if f is None else list(f), "deepcopy": dc})
             out.append({"op": "get_n_trials", "study": sh, "states": None if f is None else list(f)})
-        for n in range(0, 8):
+        for n in range(0, 8 if not medium else 5):
             out.append({"op": "get_trial_id_from_study_id_trial_number", "study": sh, "number": n})
     for th in trials:
         for k in ("get_trial", "get_trial_number_from_id", "get_trial_params", "get_trial_user_attrs", "get_trial_system_attrs"):
